@@ -311,6 +311,18 @@ def subdivision_section(bs):
                         want[k] += m
             if lin_coeffs(r.a[0, 0, 0, j], names) != want:
                 raise TraceError(f"subdivision of {n} coefficients, output {j}: not the stencil with zeros outside")
+    # 1-D coefficient tensors (N, C, X) go through the same stencils
+    for n in range(2, 6):
+        names = [f"c{i}" for i in range(n)]
+        d1 = st.Tensor(np.array([E.var(v) for v in names], dtype=object).reshape(1, 1, n))
+        d2 = st.Tensor(np.array([E.var(v) for v in names], dtype=object).reshape(1, 1, 1, n))
+        r1 = bs.subdivide_cubic_bspline(d1)
+        r2 = bs.subdivide_cubic_bspline(d2, dims=[0])
+        if r1.shape != (1, 1, 2 * n - 1):
+            raise TraceError(f"1-D subdivision of {n} coefficients has shape {r1.shape}")
+        for j in range(2 * n - 1):
+            if lin_coeffs(r1.a[0, 0, j], names) != lin_coeffs(r2.a[0, 0, 0, j], names):
+                raise TraceError("subdivision of a (N, C, X) tensor differs from subdivision along x of a (N, C, 1, X) tensor")
     # 2-D: per-axis composition, default dims = all spatial dims, order of dims irrelevant
     names = [[f"c{i}{j}" for j in range(3)] for i in range(2)]
     data = st.Tensor(np.array([[E.var(v) for v in row] for row in names], dtype=object).reshape(1, 1, 2, 3))
@@ -489,6 +501,72 @@ def ctrl_size_section(bs):
 
 
 # ------------------------------------------------------------------------------------------------
+# 4b. control point grid placement: origin and spacing handed to Grid(...)
+# ------------------------------------------------------------------------------------------------
+def ctrl_grid_section(bs):
+    """cubic_bspline_control_point_grid(grid, stride) on an axis-aligned stand-in grid with symbolic origin o and
+    spacing h per axis (index_to_world(x) = o + h x); the Grid constructor is replaced by a recorder"""
+    out = []
+    for D in (1, 2, 3):
+        o, h = st.symvec("o", D), st.symvec("h", D)
+        sv = [E.var(f"s{i}", integer=True, positive=True) for i in range(D)]
+        marks = {"size": object(), "direction": object(), "device": "cpu"}
+        calls = []
+
+        class StubGrid:
+            ndim = D
+            device = "cpu"
+
+            def size(self):
+                return marks["size"]
+
+            def spacing(self):
+                return h
+
+            def direction(self):
+                return marks["direction"]
+
+            def index_to_world(self, x):
+                if not isinstance(x, st.Tensor) or x.shape != (D,):
+                    raise TraceError("index_to_world called with an unexpected argument")
+                return o + h * x
+
+        class Recorder:
+            def __init__(self, **kw):
+                calls.append(kw)
+
+        def size_stub(size, stride):
+            if size is not marks["size"]:
+                raise TraceError("control grid size is not computed from grid.size()")
+            return ("SIZE", stride)
+
+        with patched(bs, "Grid", Recorder), patched(bs, "cubic_bspline_control_point_grid_size", size_stub):
+            stride = sv[0] if D == 1 else tuple(sv)
+            bs.cubic_bspline_control_point_grid(StubGrid(), stride)
+        if len(calls) != 1:
+            raise TraceError("cubic_bspline_control_point_grid does not build exactly one Grid")
+        kw = calls[0]
+        if kw.get("size") != ("SIZE", stride) or kw.get("direction") is not marks["direction"] or kw.get("align_corners") is not True:
+            raise TraceError("control grid size / direction / align_corners are not those of the image grid")
+        org, spc = kw.get("origin"), kw.get("spacing")
+        if not isinstance(org, st.Tensor) or not isinstance(spc, st.Tensor) or org.shape != (D,) or spc.shape != (D,):
+            raise TraceError("control grid origin / spacing shapes")
+        for i in range(D):
+            ren_ = {f"o{i}": "o", f"h{i}": "h", f"s{i}": "s"}
+            eo, es = ren(org.a[i], ren_), ren(spc.a[i], ren_)
+            if set(eo.free_vars()) - {"o", "h", "s"} or set(es.free_vars()) - {"h", "s"}:
+                raise TraceError("control grid origin / spacing along one axis depends on another axis")
+            if D == 1:
+                out.append("(* cubic_bspline_control_point_grid: origin and spacing along one axis of a grid with origin o, spacing h *)\n"
+                           f"Definition gen_ctrl_origin (o h s : K) : K :=\n  {st.to_coq(eo)}.\n")
+                out.append(f"Definition gen_ctrl_spacing (h s : K) : K :=\n  {st.to_coq(es)}.\n")
+                first = (eo, es)
+            elif not (eo.same(first[0]) and es.same(first[1])):
+                raise TraceError(f"control grid placement for D = {D}, axis {i} differs from the 1-D form")
+    return out
+
+
+# ------------------------------------------------------------------------------------------------
 # 5. evaluate_cubic_bspline(transpose=False): index glue, checked against the tensor-product closed form
 # ------------------------------------------------------------------------------------------------
 def check_evaluate(bs):
@@ -564,6 +642,7 @@ def generate(loader):
         b, _ = bvalue_section(ker)
         s = subdivision_section(bs)
     out += w + b + s
+    out += ctrl_grid_section(bs)
     out.append("End Gen.\n")
     out += ctrl_size_section(bs)
     check_evaluate(bs)
